@@ -72,6 +72,9 @@ func (c *AesCipher) Decrypt(cipherTextWithIv []byte) ([]byte, error) {
 	if err != nil {
 		return nil, fmt.Errorf("failed to decode IV: %w", err)
 	}
+	if len(iv) != IV_LENGTH {
+		return nil, errors.New("invalid IV length")
+	}
 
 	cipherText, err := base64.StdEncoding.DecodeString(string(cipherTextB64))
 	if err != nil {
